@@ -252,7 +252,6 @@ func (s *Sim) nontrivial() bool {
 	return f > 0
 }
 
-
 // shadowCheck is one half of C02's crash oracle: at an instant at which attest votes have left node n,
 // a fresh service is started on a copy of n's crash DB (the durable image at this instant). Whatever
 // that restored node originates must not conflict with anything the node's keys ever sent. The shadow
